@@ -86,6 +86,8 @@ func Iff(a, b bool) bool
 func IteInt(c bool, a, b int) int
 func IteBool(c bool, a, b bool) bool
 func IteTime(c bool, a, b time.Time) time.Time
+// Same: identical dynamic type and identical value; for byte-slice typed values (ed25519 keys) identity of the value.
+func Same(a, b any) bool
 func BytesEq(a, b []byte) bool
 func StrEq(a, b string) bool
 
